@@ -36,7 +36,7 @@ type Term struct {
 	args []*Term
 	id   int
 	// solver bookkeeping
-	emitLevel int // -1 = not emitted to the solver; >= 0 = defined (declarations are global)
+	emitEpoch int // solver epoch in which the term was defined (0 = never); see Solver.epoch
 	emitGen   int
 	defn      *varDefn // for "var": defining constraint asserted when first referenced
 	// defs: defining constraints (see varDefn) of auxiliary variables this term mentions,
@@ -109,7 +109,7 @@ func newTermNamed(op string, sort Sort, name string, args ...*Term) *Term {
 			return t
 		}
 		termCounter++
-		t = &Term{op: op, sort: sort, name: name, args: args, id: termCounter, emitLevel: -1}
+		t = &Term{op: op, sort: sort, name: name, args: args, id: termCounter, emitEpoch: 0}
 		internSmall[k] = t
 	} else {
 		var sb strings.Builder
@@ -125,7 +125,7 @@ func newTermNamed(op string, sort Sort, name string, args ...*Term) *Term {
 			return t
 		}
 		termCounter++
-		t = &Term{op: op, sort: sort, name: name, args: args, id: termCounter, emitLevel: -1}
+		t = &Term{op: op, sort: sort, name: name, args: args, id: termCounter, emitEpoch: 0}
 		internBig[k] = t
 	}
 	for _, a := range args {
@@ -153,8 +153,8 @@ func mask(w Sort) uint64 {
 }
 
 var (
-	tTrue  = &Term{op: "const", sort: SBool, cv: 1, emitLevel: -1}
-	tFalse = &Term{op: "const", sort: SBool, cv: 0, emitLevel: -1}
+	tTrue  = &Term{op: "const", sort: SBool, cv: 1, emitEpoch: 0}
+	tFalse = &Term{op: "const", sort: SBool, cv: 0, emitEpoch: 0}
 )
 
 func mkBool(b bool) *Term {
@@ -165,11 +165,11 @@ func mkBool(b bool) *Term {
 }
 
 func mkBV(w int, v uint64) *Term {
-	return &Term{op: "const", sort: Sort(w), cv: v & mask(Sort(w)), emitLevel: -1}
+	return &Term{op: "const", sort: Sort(w), cv: v & mask(Sort(w)), emitEpoch: 0}
 }
 
 func mkIntConst(v int64) *Term {
-	return &Term{op: "const", sort: SInt, cv: uint64(v), emitLevel: -1}
+	return &Term{op: "const", sort: SInt, cv: uint64(v), emitEpoch: 0}
 }
 
 func mkVar(name string, sort Sort) *Term {
